@@ -1,7 +1,8 @@
 """C39 - behaviour is identical across build configurations (DESIGN §4 C39, engine E4).
 
-Donor programs (vlib/gen/pyprog function items, and - when importable - vlib/gen/excprog and vlib/gen/evalorder
-items) are batched into modules.  Each module is translated by Cython ONCE to C (and once to C++), then the same
+Donor programs (vlib/gen/cfgkernels: 41 hand-written kernels sitting on the macro-selected helpers, driven by
+Hypothesis-drawn boundary values; vlib/gen/pyprog function items; and - when importable - vlib/gen/excprog and
+vlib/gen/evalorder items) are batched into modules.  Each module is translated by Cython ONCE to C (and once to C++), then the same
 generated file is compiled under a matrix of cells: -O0 / -O2, C / C++17, Limited API, feature macros one at a
 time (thorough) or in drawn subsets (quick), plus a few semantics-neutral directives (these need their own
 Cython run).  Every generated call is executed in every cell; the canonical outcome (value, exception type +
@@ -13,7 +14,7 @@ import os
 from hypothesis import strategies as st
 
 from vlib import cybuild, diffmod, harness, hyp, runner, tree
-from vlib.gen import pyprog
+from vlib.gen import cfgkernels, pyprog
 
 PID = "C39"
 LEVEL = "exploration"
@@ -26,10 +27,14 @@ META = {
 MACROS = ["CYTHON_USE_PYLONG_INTERNALS=0", "CYTHON_USE_UNICODE_INTERNALS=0", "CYTHON_VECTORCALL=0",
           "CYTHON_AVOID_BORROWED_REFS=1", "CYTHON_ASSUME_SAFE_MACROS=0", "CYTHON_ASSUME_SAFE_SIZE=0",
           "CYTHON_USE_TYPE_SLOTS=0", "CYTHON_USE_TYPE_SPECS=1", "CYTHON_FAST_THREAD_STATE=0",
-          "CYTHON_USE_EXC_INFO_STACK=0", "CYTHON_UNPACK_METHODS=0", "CYTHON_USE_PYLIST_INTERNALS=0",
+          "CYTHON_UNPACK_METHODS=0", "CYTHON_USE_PYLIST_INTERNALS=0", "CYTHON_USE_TP_FINALIZE=0",
+          "CYTHON_USE_AM_SEND=0", "CYTHON_UPDATE_DESCRIPTOR_DOC=0", "CYTHON_USE_MODULE_STATE=1",
           "CYTHON_USE_FREELISTS=0", "CYTHON_USE_UNICODE_WRITER=0", "CYTHON_USE_PYTYPE_LOOKUP=0",
           "CYTHON_USE_DICT_VERSIONS=1", "CYTHON_COMPRESS_STRINGS=0", "CYTHON_COMPRESS_STRINGS=1",
           "CYTHON_COMPRESS_STRINGS=2"]
+# not in the list: CYTHON_USE_EXC_INFO_STACK=0 (does not compile on CPython >= 3.7: PyThreadState.exc_type is gone; the
+# macro only exists to be switched on), CYTHON_IMMORTAL_CONSTANTS=1 (needs 3.13 headers), CYTHON_METH_FASTCALL (merged
+# into CYTHON_VECTORCALL in this tree)
 LIMITED = ["CYTHON_LIMITED_API=1", "Py_LIMITED_API=0x030c0000"]
 O0 = ["-O0", "-w", "-fPIC", "-fwrapv", "-fno-strict-aliasing"]
 O2 = ["-O2", "-w", "-fPIC", "-fno-strict-aliasing"]
@@ -41,7 +46,8 @@ DIRECTIVES = [{"binding": False}, {"optimize.use_switch": False}, {"optimize.unp
 
 
 def donors():
-    out = [("pyprog", pyprog, {"header": pyprog.HEADER, "setup": None, "always_log": False, "kw": {"max_depth": 3}})]
+    out = [("pyprog", pyprog, {"header": pyprog.HEADER, "setup": None, "always_log": False, "kw": {"max_depth": 3}}),
+           ("cfgkernels", cfgkernels, {"header": cfgkernels.HEADER, "setup": "Box = M.Box\n", "always_log": False, "kw": {}})]
     try:
         from vlib.gen import excprog
         out.append(("excprog", excprog, {"header": excprog.HEADER, "setup": excprog.SETUP, "always_log": True, "kw": {}}))
@@ -61,20 +67,24 @@ def macro_key(defines):
 
 def cells_for(seed, tier, mi):
     """[(cell name, cplus, flags, defines, directives)] besides the baseline."""
-    cells = [("O2", False, O2, [], None), ("cpp", True, O0, [], None), ("limited", False, O0, list(LIMITED), None)]
     if tier == "quick":
-        # three drawn macro subsets per module; the permutation is dealt so that a run covers every macro
+        # 4 jobs per run: the kernel donor twice (job 0: -O2 + macro subsets 0-2, job 1: macro subsets 3-5; the 6 drawn
+        # subsets of 4 macros together cover all macro settings), job 2: C++ + one neutral directive, job 3: Limited API
+        cells = [[("O2", False, O2, [], None)], [], [("cpp", True, O0, [], None)],
+                 [("limited", False, O0, list(LIMITED), None)]][mi % 4]
         perm = hyp.draw_many(st.permutations(MACROS), 2, seed, "c39macros")[-1]
         per = 4
-        for j in range(3):
-            start = ((mi * 3 + j) * per) % len(perm)
+        for j in {0: (0, 1, 2), 1: (3, 4, 5), 2: (), 3: ()}[mi % 4]:
+            start = (j * per) % len(perm)
             sub = [perm[(start + i) % len(perm)] for i in range(per)]
             names = set()
             sub = [d for d in sub if not (d.split("=")[0] in names or names.add(d.split("=")[0]))]
             cells.append(("macros:" + macro_key(sub), False, O0, sub, None))
-        d = DIRECTIVES[(mi + seed) % len(DIRECTIVES)]
-        cells.append(("directive:" + ",".join("%s=%s" % kv for kv in d.items()), False, O0, [], d))
+        if mi % 4 == 2:
+            d = DIRECTIVES[seed % len(DIRECTIVES)]
+            cells.append(("directive:" + ",".join("%s=%s" % kv for kv in d.items()), False, O0, [], d))
     else:
+        cells = [("O2", False, O2, [], None), ("cpp", True, O0, [], None), ("limited", False, O0, list(LIMITED), None)]
         for m in MACROS:
             cells.append(("macros:" + macro_key([m]), False, O0, [m], None))
         cells.append(("macros:COMPRESS_STRINGS=90", False, O0, ["CYTHON_COMPRESS_STRINGS=90"], None))
@@ -175,7 +185,7 @@ def _module_job(job):
         part.count("donor_missing:" + dname)
         return part
     gen, dinfo = dmap[dname]
-    k = 12 if tier == "quick" else 20
+    k = 10 if tier == "quick" else 20
     name = "c39_%s_%d" % (dname, mi)
     outdir = os.path.join(work, "c39", name)
     try:
@@ -249,6 +259,8 @@ def _module_job(job):
                 label = ("macros:" + macro_key([culprit])) if culprit else cname
                 agrees = "cell agrees with CPython" if diffmod.compare(r, g, "full") is None else (
                     "baseline agrees with CPython" if diffmod.compare(r, b, "full") is None else "neither agrees with CPython")
+                if cls.startswith("excmsg:"):      # same exception type, different text: name the two texts in the bucket
+                    cls += ":%s=>%s" % (diffmod.msg_template(b[2])[:80], diffmod.msg_template(g[2])[:80])
                 part.violation("cell:%s:%s:%s" % (label, dname, cls),
                                dict(ccase, src=it["src"], exprs=[c["expr"]], defines=[culprit] if culprit else defines),
                                "%s: baseline (C, -O0) %s vs cell %s %s; CPython %s (%s)" % (
@@ -259,16 +271,17 @@ def _module_job(job):
 def run(ctx):
     ds = [n for n, _, _ in donors()]
     if ctx.quick:
-        plan = [("pyprog", 0), ("pyprog", 1)] + [(n, 0) for n in ds if n != "pyprog"]
+        others = [n for n in ds if n not in ("pyprog", "cfgkernels")]
+        plan = [("cfgkernels", 0), ("cfgkernels", 1), (others[ctx.seed % len(others)] if others else "pyprog", 2), ("pyprog", 3)]
     else:
-        plan = [(n, i) for n in ds for i in range(8 if n == "pyprog" else 4)]
+        plan = [(n, i) for n in ds for i in range(8 if n == "pyprog" else 3 if n == "cfgkernels" else 4)]
     if os.environ.get("VERIF_C39_MODS"):        # development aid only
         plan = plan[:int(os.environ["VERIF_C39_MODS"])]
     ctx.pmap(_module_job, [(ctx.seed, ctx.tier, mi, dn, ctx.work) for dn, mi in plan])
     ctx.extra["donors"] = ds
-    ctx.rule = ("donor modules (12/20 generated items each: pyprog x2, excprog, evalorder) translated once by Cython and built in cells: "
-                "-O2, C++17, Limited API, quick: 3 drawn subsets of 4 feature macros per module (the deal covers all 19 macro settings "
-                "per run) + 1 neutral directive; thorough: every macro alone, COMPRESS_STRINGS 0/1/2/90, -O3, C++ -O2, Limited -O2, "
+    ctx.rule = ("donor modules (cfgkernels: 41 kernels x 14 drawn argument tuples; others 10/20 generated items; quick: cfgkernels x2, excprog|evalorder, pyprog) translated once by Cython and built "
+                "in cells: quick: kernels: -O2 + 6 drawn subsets of 4 feature macros (the deal covers all 22 macro settings per run), "
+                "excprog|evalorder: C++17 + 1 neutral directive, pyprog: Limited API; thorough: -O2, C++17, Limited API, every macro alone, COMPRESS_STRINGS 0/1/2/90, -O3, C++ -O2, Limited -O2, "
                 "3 drawn 2-5 macro combinations, 5 directives. One evaluation per (call, cell): canonical outcome equal to the baseline "
                 "cell (C, -O0). non-trivial = the cell's preprocessed translation unit differs from the baseline's (-E -P hash) or the "
                 "cell changes optimisation level / language / directives; distinct by (item source, call, cell)")
@@ -296,4 +309,6 @@ def replay(ctx, case):
         cls = diffmod.compare(b, g, "full")
         if cls is not None:
             return True, "%s: %s: baseline %s vs cell %s %s" % (e, cls, diffmod.json_short(b), case.get("cell"), diffmod.json_short(g))
+    ctx.extra.setdefault("replays_not_reproduced", []).append({"cell": case.get("cell"), "defines": case.get("defines"),
+                                                                "exprs": case["exprs"], "src": case["src"][:1500]})
     return False, "outcomes agree with the baseline cell"
